@@ -14,6 +14,11 @@ theorem paeth_eq_spec (a b c : UInt8) :
     paethPredictO a b c = some (Spec.Png.paeth a b c) ∧ paethPredict a b c = Spec.Png.paeth a b c :=
   ⟨paethPredictO_eq a b c, paethPredict_eq a b c⟩
 
+/-- PaethPredictor is symmetric in (left, above): swapping the two arguments in `decode_row`, or making the
+first tie-break of `paeth_predict` strict, are behaviour-preserving changes (both tried as mutations). -/
+theorem paeth_symm (a b c : UInt8) : paethPredict a b c = paethPredict b a c := by
+  rw [paethPredict_eq, paethPredict_eq, paeth_symm']
+
 /-- **row round trip**: for each of the five filter types, every `bpp ≥ 1`, every row length and every
 previous row, `decode_row` inverts the PNG specification's filter. -/
 theorem row_rt (t : Spec.Png.FilterType) (bpp : Nat) (hb : 1 ≤ bpp) (prev cur : Bytes) :
@@ -138,7 +143,17 @@ theorem compress_not_longer (deflate : Bytes → Bytes) (s : Strm) :
     (compress deflate s ≠ s → (compress deflate s).content.length + COMPRESS_MARGIN < s.content.length) :=
   compress_not_longer' deflate s
 
-theorem compress_margin_is_entry_size : COMPRESS_MARGIN = (47 :: K_FILTER ++ 47 :: F_FLATE).length := by decide
+/-- the bytes the added entry `/Filter/FlateDecode` costs in the serialised dictionary -/
+def filterEntrySize : Nat := (47 :: K_FILTER ++ 47 :: F_FLATE).length
+
+/-- the serialised object never grows: whenever compress changes the stream, the new content plus the
+added `/Filter/FlateDecode` entry is no longer than the old content (needs `entry size ≤ COMPRESS_MARGIN + 1`,
+checked against the regenerated constant). -/
+theorem compress_object_not_longer (deflate : Bytes → Bytes) (s : Strm) (h : compress deflate s ≠ s) :
+    (compress deflate s).content.length + filterEntrySize ≤ s.content.length := by
+  have h1 := (compress_not_longer deflate s).2 h
+  have h2 : filterEntrySize ≤ COMPRESS_MARGIN + 1 := by decide
+  omega
 
 /-- **compress then decode returns the original bytes** — PARTIAL: under the guard that the stream already has a
 Filter (compress is then the identity) or its DecodeParms does not activate a PNG predictor. -/
